@@ -39,11 +39,18 @@ class FuncAnalysis:
         self.f = f
         self.cfg = CFG(f.node)
         self.rd = ReachingDefs(f, self.cfg)
-        self.sym = Sym(f, self.cfg, self.rd, inliner=an.inliner)
+        self._sym = Sym(f, self.cfg, self.rd, inliner=an.inliner)
         self._effects: Optional[List[Effect]] = None
+        self.touched = False      # a rule looked at this function's values / sites (not only at its effect summary)
+
+    @property
+    def sym(self):
+        self.touched = True
+        return self._sym
 
     # -------------------------------------------------------------- sites
     def node_of(self, astnode: ast.AST) -> Node:
+        self.touched = True
         n = self.cfg.node_of(astnode)
         if n is None:
             # statement-level nodes (Continue/Break etc.)
@@ -59,6 +66,7 @@ class FuncAnalysis:
     def calls_to(self, *shorts: str, ext: Iterable[str] = ()) -> List[ast.AST]:
         """Call sites (incl. property loads / subscripts) whose resolved targets
         include one of the named functions (Class.method) or ext dotted names."""
+        self.touched = True
         out = []
         exts = tuple(ext)
         for node, tg, e, kind in self.calls():
@@ -71,6 +79,7 @@ class FuncAnalysis:
 
     def calls_named(self, name: str) -> List[ast.Call]:
         """Call sites by callee attribute/function name (syntactic)."""
+        self.touched = True
         out = []
         for node in walk_function(self.f.node):
             if isinstance(node, ast.Call):
@@ -253,7 +262,7 @@ class Analysis:
     def scope(self):
         """(functions, class names) the rules of this run depend on: the
         functions the rules named, the classes owning those functions and the classes whose attributes they touch."""
-        funcs = set(self.roots) | set(self.prog.requested)     # direct: the over-approximate call graph (CHA, by-name) reaches most of the package from anywhere
+        funcs = set(self.roots) | set(self.prog.requested) | {q for q, a in self._fa.items() if a.touched}     # direct: the over-approximate call graph (CHA, by-name) reaches most of the package from anywhere
         classes = set()
         for q in funcs:
             g = self.prog.functions.get(q)
